@@ -419,3 +419,34 @@ def _following_literals(sub, idx) -> Optional[str]:
                 if r is not None:
                     return r
     return None
+
+
+def p_r6_every_match_dispatched(p: Project, rep: Report):
+    """every tag the tokenizer matched reaches the tree builder"""
+    from . import paths as PT
+    from .flat import flat
+    from .match import Expander
+
+    rep.rule("P-R6", "every tag the tokenizer matches reaches the tree builder: on every normally returning path of _feedmatch (private helpers inlined) the element is started (start tag) or ended (end tag) through the builder's start()/end() - a path that returns without doing either drops a tag silently (a skipped start/end pair re-parents the children; a skipped stray end tag is no longer refused)")
+    ci = builder(p)
+    fm0 = ci.own_func("_feedmatch")
+    if fm0 is None:
+        rep.note("P-R6 undecided: TreeBuilder has no _feedmatch")
+        return
+    fm = flat(p, PARSER, fm0, ci)
+    pths = PT.enumerate_paths(fm, None, Expander(fm))
+    cfg = pths.cfg
+    disp = {n.id for n in cfg.nodes if n.stmt is not None and n.kind not in ("join", "handlers") and any(text(c.func) in ("self.start", "self.end", "super().start", "super().end") for c in n.calls())}
+    if not disp:
+        rep.note("P-R6 undecided: _feedmatch never calls start()/end()")
+        return
+    bad = None
+    n = 0
+    for q in pths:
+        if q.outcome not in ("return", "fall"):
+            continue
+        n += 1
+        if not any(i in disp for i in q.nodes):
+            bad = PT.simple_conds(q.conds)
+    rep.unit("feedmatch_paths", n)
+    rep.check("P-R6", "_feedmatch:every-match-starts-or-ends-an-element", bad is None, f"a path of _feedmatch returns without calling start() or end() (taken when {bad}): the matched tag is dropped" if bad is not None else "", ploc(p, fm0))
